@@ -53,4 +53,28 @@ CHECKS = {
         "assumptions": ["quick tier skips half of the interior (position x kind x chunk) cross-product; thorough enumerates it completely"],
         "units": [gt("sm2", "./sm2/", "TestVerifC19")],
     },
+    "C20": {
+        "level": "exploration",
+        "rule": "ConstantTimeCmp vs bytes.Compare: ALL 65,536 one-byte pairs, all pairs over {00,7f,ff} up to length 5 (6 thorough), single differing byte at every position for lengths 1..64, borrow chains, extremes, l<len; DecomposeNAF for w=1..7 vs the recoding definition (digits zero/odd, |d|<2^w, >=w zeros after a non-zero, weighted sum) on single bits, 2^k-1, 2^256-2^k, byte patterns, runs at every bit offset, n, p and random 256-bit inputs; a class is (helper, construction, length or w)",
+        "assumptions": ["oracles are bytes.Compare and math/big from the Go standard library"],
+        "units": [gt("utils", "./utils/", "TestVerifC20")],
+    },
+    "C16": {
+        "level": "exploration",
+        "rule": "differential monitor vs math/big for both fields: operands from all 4-limb combinations of a carry-critical limb alphabet (0,1,2,2^32+-1,2^63,2^64-1, limbs of m, m-1, 2^256 mod m, m>>1; every 5th combination in quick, all in thorough) plus random; ops add/sub/opp/mul/square/select/bytes/ToBigInt/IsZero/Equal incl. aliased receivers, partners chosen to hit a+b=0 and a+b=m-1; Invert vs ModInverse and x*inv=1, Invert(0)=0; SetBytes rejects [m,2^256) at the edges, at every first-exceeding byte, randomly, and wrong lengths; MultiSelect on widths 1..127; a class is (field, top and low limb pattern | random | decoding class)",
+        "assumptions": ["oracle is math/big; the exact inversion exponent (p-2, n-2) is established separately by the op-trace monitor when the tracer engine is available, algebraically here"],
+        "units": [gt("fiat", "./sm2/internal/fiat/", "TestVerifC16")],
+    },
+    "C14": {
+        "level": "exploration",
+        "rule": "differential monitor vs the integer multiple by the affine math/big model: base comb schemes 6-3-14 (live), 5-3-17, 4-2-32, 7-3-12 with EVERY window value at EVERY window position (all for the live scheme; a quarter of the others in quick, all in thorough), remainder values, two-window combinations, specials (0,1,n-1,n,n+1,2^255,2^256-1), random; ScalarMult with one-hot nibbles at all 64 positions, scalar lengths 0..40, points G,-G,2G..16G,random in random projective scaling; ScalarMixedMult_Unsafe on NAF-critical patterns and P=[j]G chosen so that [g]G+[s]P hits P+P, P+(-P), infinity; a class is (routine, scheme, window position | construction)",
+        "assumptions": ["reference SM2 validated against GM/T 0003.5 vectors and OpenSSL fixtures; results are read through raw limbs x 2^-256 mod p, not through the library's own conversion"],
+        "units": [gt("internal", "./sm2/internal/", "TestVerifC14")],
+    },
+    "C15": {
+        "level": "exploration",
+        "rule": "Add/Double/Negate/Select over all ordered pairs of a pool (inf, +-G, +-2..5G, (n+-1)/2 G, x=0 point, random) x random projective rescaling (lambda in {1,p-1,2,random}) x aliasing (fresh, q=p1, q=p2, p1=p2, q=p1=p2), result compared in affine form with the model and checked on the projective curve equation; Bytes/Bytes_Unsafe/GetAffineX/GetAffineX_Unsafe agreement and decode(encode)=id; hostile decodings (every length 0..70, every prefix byte, compressed, bit flips, x+p, y+p, random) must fail and leave the receiver unchanged; a class is (op, relation of operands, aliasing | encoding class)",
+        "assumptions": ["reference SM2 validated at start of every run"],
+        "units": [gt("internal", "./sm2/internal/", "TestVerifC15")],
+    },
 }
